@@ -899,7 +899,7 @@ func ruleCollectorVisitsEveryPair(c *Ctx, rule string) {
 			// range-over-function bodies: closures func(string, string) bool lexically inside the collector
 			for _, cl := range g.AnonFuncs {
 				sig := cl.Signature
-				if sig.Params().Len() != 2 || sig.Results().Len() != 1 || !isBoolType(sig.Results().At(0).Type()) {
+				if sig.Params().Len() < 1 || sig.Params().Len() > 2 || sig.Results().Len() != 1 || !isBoolType(sig.Results().At(0).Type()) {
 					continue
 				}
 				n++
@@ -1268,4 +1268,69 @@ func ruleMetaTimesChecked(c *Ctx, rule string) {
 	default:
 		c.Pass(rule, "meta-times-checked", desc, fmt.Sprintf("%d time(s) parsed", n))
 	}
+}
+
+// ruleAgeNotCappedLower (C01.23): age and lifetime saturate at the same bound. An Age capped at a constant (2^31 s) while
+// max-age saturates only at the greatest representable value makes a response that is older than its lifetime look
+// fresh (`Age: 5000000000`, `max-age=4000000000`). In the current-age function the decoded Age is not passed through a
+// `min` with a constant, nor compared with one to be dropped.
+func ruleAgeNotCappedLower(c *Ctx, rule string) {
+	if !c.Need(rule, "currentAge") {
+		return
+	}
+	ca := c.A.F("currentAge")
+	desc := "the decoded Age is not capped at a constant below the decoder's own saturation bound"
+	isAgeValue := func(v ssa.Value) bool {
+		return c.An.dependsOnCall(v, func(x *ssa.Call) bool {
+			if !(callIsMethod(&x.Call, "net/http", "Header", "Get") || callIsMethod(&x.Call, "net/http", "Header", "Values")) {
+				return false
+			}
+			_, a := recvAndArgs(&x.Call)
+			k, ok := constStr(a[0])
+			return ok && strings.EqualFold(k, "Age")
+		})
+	}
+	bad := ""
+	n := 0
+	for g := range c.P.StaticTree(ca) {
+		instrsOf(g, func(in ssa.Instruction) {
+			if call, ok := in.(*ssa.Call); ok {
+				if b, isB := call.Call.Value.(*ssa.Builtin); isB && b.Name() == "min" {
+					hasAge, hasConst := false, false
+					for _, a := range call.Call.Args {
+						if _, isK := a.(*ssa.Const); isK {
+							hasConst = true
+						} else if typeIs(a.Type(), "time", "Duration") && isAgeValue(a) {
+							hasAge = true
+						}
+					}
+					if hasAge {
+						n++
+					}
+					if hasAge && hasConst {
+						bad = c.P.ShortName(g) + "@" + c.P.InstrPos(in)
+					}
+				}
+			}
+			if bo, ok := in.(*ssa.BinOp); ok && (bo.Op == token.LEQ || bo.Op == token.LSS || bo.Op == token.GTR || bo.Op == token.GEQ) && typeIs(bo.X.Type(), "time", "Duration") {
+				_, xk := bo.X.(*ssa.Const)
+				_, yk := bo.Y.(*ssa.Const)
+				if xk && isAgeValue(bo.Y) || yk && isAgeValue(bo.X) {
+					if k, ok := constInt(bo.X); ok && k == 0 {
+						return
+					}
+					if k, ok := constInt(bo.Y); ok && k == 0 {
+						return
+					}
+					n++
+					bad = c.P.ShortName(g) + "@" + c.P.InstrPos(in)
+				}
+			}
+		})
+	}
+	if bad != "" {
+		c.Fail(rule, "age-not-capped-lower", desc, bad+": the Age is bounded by a constant; `Age: 5000000000` with `max-age=4000000000` (older than its lifetime) is served as a fresh HIT with `Age: 2147483648`")
+		return
+	}
+	c.Pass(rule, "age-not-capped-lower", desc, fmt.Sprintf("%s: %d bound(s) on the Age examined", c.P.ShortName(ca), n))
 }
